@@ -470,6 +470,13 @@ func ruleSIB5(w *World, r *Report) {
 		r.Cond(!found, "SIB-5", fmt.Sprintf("addBatchInternal:validate-before-mutation#%d", i+1), w.Pos(m.Pos()), "an id check over the batch precedes this mutation on every path",
 			"addBatchInternal can start inserting before the ids of the batch were checked: a batch rejected at item k leaves items 0..k-1 behind (the caller was told the batch failed)", w.witness(wit)...)
 	}
+	// the validation is complete before the first mutation: once an id was registered or a node inserted, no id
+	// check that could still reject the batch may follow (check-then-register in one loop leaves items 0..k-1 behind)
+	for i, m := range muts {
+		found, wit := (pathQuery{fn: fn, target: validates}).find(posOf(m))
+		r.Cond(!found, "SIB-5", fmt.Sprintf("addBatchInternal:no-validation-after-mutation#%d", i+1), w.Pos(m.Pos()), "no id check follows this mutation",
+			"addBatchInternal checks ids while it is already registering/inserting items (an id lookup is reachable after this mutation): when item k is rejected, items 0..k-1 stay registered — the rejected batch has changed the index", w.witness(wit)...)
+	}
 	// intra-batch duplicates: the validation must also consult a set local to the call
 	hasSeen := false
 	for _, f := range append([]*ssa.Function{fn}, calledStatic(fn)...) {
